@@ -41,12 +41,20 @@ func loadWorld(repo string) (*World, error) {
 		progress := false
 		// 1. errors inside generated clause functions: drop the contracts they belong to
 		for _, k := range le.keys {
-			if c := contracts[k]; c != nil {
-				broken[k] = c
-				brokenWhy[k] = le.msgFor(k)
-				delete(contracts, k)
-				progress = true
+			c := contracts[k]
+			if c == nil {
+				continue
 			}
+			// drop only the clauses at fault when none of them is a precondition (callers can still use the rest of
+			// the contract; the function itself is then checked by the bounded executable stand-in where possible)
+			if gens := le.clauses[k]; len(gens) > 0 && c.dropClauses(gens, le.byKey[k]) {
+				progress = true
+				continue
+			}
+			broken[k] = c
+			brokenWhy[k] = le.msgFor(k)
+			delete(contracts, k)
+			progress = true
 		}
 		// 2. contracts naming functions that no longer exist
 		for _, k := range le.missing {
@@ -86,6 +94,7 @@ type loadErr struct {
 	pkgs    []string
 	pkgSeen map[string]bool
 	byKey   map[string]string
+	clauses map[string][]string // contract key -> generated clause function names at fault
 }
 
 func (e *loadErr) Error() string { return e.text }
@@ -130,7 +139,7 @@ func tryLoad(repo string, contracts map[string]*Contract, overlay0 map[string][]
 
 // classifyLoadErr maps type errors to the contracts (generated clause functions) or packages (contracts files) at fault.
 func classifyLoadErr(err error, gen map[string][]byte) error {
-	le := &loadErr{text: err.Error() + "\n(while type-checking contracts)", byKey: map[string]string{}, pkgSeen: map[string]bool{}}
+	le := &loadErr{text: err.Error() + "\n(while type-checking contracts)", byKey: map[string]string{}, pkgSeen: map[string]bool{}, clauses: map[string][]string{}}
 	seenK := map[string]bool{}
 	for _, ln := range strings.Split(err.Error(), "\n") {
 		m := reGenErr.FindStringSubmatch(ln)
@@ -154,13 +163,23 @@ func classifyLoadErr(err error, gen map[string][]byte) error {
 				continue
 			}
 			lines := strings.Split(string(src), "\n")
+			gen := ""
 			for i := line - 1; i >= 0 && i < len(lines); i-- {
+				if gen == "" && strings.HasPrefix(lines[i], "func xvcc_") {
+					gen = lines[i][len("func "):]
+					if j := strings.Index(gen, "("); j >= 0 {
+						gen = gen[:j]
+					}
+				}
 				if strings.HasPrefix(lines[i], "// @key ") {
 					k := strings.TrimPrefix(lines[i], "// @key ")
 					if !seenK[k] {
 						seenK[k] = true
 						le.keys = append(le.keys, k)
 						le.byKey[k] = m[5]
+					}
+					if gen != "" {
+						le.clauses[k] = append(le.clauses[k], gen)
 					}
 					break
 				}
@@ -254,6 +273,27 @@ func main() {
 		}
 		if bad {
 			os.Exit(1)
+		}
+	case "headers":
+		// canonical contract headers with positional parameter names (used once to make headers rename-proof)
+		w, err := loadWorld(*repo)
+		if err != nil {
+			fmt.Fprintln(os.Stderr, "ENGINE-ERROR:", err)
+			os.Exit(2)
+		}
+		for _, k := range sortedKeys(w.Contracts) {
+			f := w.Funcs[k]
+			if f == nil {
+				continue
+			}
+			var ns []string
+			for i, p := range f.Params {
+				if i == 0 && f.Signature.Recv() != nil {
+					continue
+				}
+				ns = append(ns, p.Name())
+			}
+			fmt.Printf("%s\t(%s)\n", k, strings.Join(ns, ", "))
 		}
 	case "loops":
 		w, err := loadWorld(*repo)
